@@ -282,7 +282,7 @@ def run_case(case):
             break
     # (g) the user changes parameters of an already simulated model and simulates again: the result must be
     # that of a fresh model built with the new values (nothing remembered from before the edit)
-    if case["i"] % 2 == 1:
+    if True:
         import random as _random
         from . import edits as E
         er = _random.Random(case["i"] * 7919 + 13)
@@ -291,8 +291,11 @@ def run_case(case):
         with warnings.catch_warnings():
             warnings.simplefilter("ignore")
             try:
-                me.project.simulate(**sim_kwargs(spec))
-                spec2, what = E.edit(er, spec, me)
+                if case["i"] % 4 == 2:
+                    me.project.backward_simulate(**sim_kwargs(spec))    # (the earlier run was a backward one)
+                else:
+                    me.project.simulate(**sim_kwargs(spec))
+                spec2, what = E.edit(er, spec, me, n=er.randint(1, 4))
                 me.project.simulate(**sim_kwargs(spec2))
                 d_edit = B.dump(me.project)
             except Exception as e:
